@@ -3,10 +3,12 @@
 cd "$(dirname "$0")/.."
 seed=${1:-1}; tier=${2:-quick}; shift; shift
 ids="$@"; [ -z "$ids" ] && ids=$(cat ready.txt)
+bad=0
 for p in $ids; do
   s=$(date +%s)
   out=$(python3 vcheck.py $p --tier $tier --seed $seed --no-evidence 2>&1); rc=$?
   e=$(( $(date +%s) - s ))
   echo "$p seed=$seed tier=$tier rc=$rc ${e}s $(echo "$out" | grep -c '^VIOLATION') violation(s) $(echo "$out" | grep -c '^KNOWN-FINDING') known $(echo "$out" | grep -c '^INCONCLUSIVE') inconclusive"
-  [ $rc -ne 0 ] && echo "$out" | grep -A3 "^VIOLATION\|^INCONCLUSIVE\|^HARNESS" | cut -c1-400 | head -30
+  if [ $rc -ne 0 ]; then bad=$((bad+1)); echo "$out" | grep -A3 "^VIOLATION\|^INCONCLUSIVE\|^HARNESS" | cut -c1-400 | head -30; fi
 done
+[ $bad -eq 0 ]
